@@ -6,11 +6,11 @@ import TrionModel.Model.Layout
 `Ref.trace c p` pairs every statement of `p` with the reference cursor in front of it,
 `Ref.cursorAfter c p` is the cursor behind `p`, `Ref.bytes c s` the bytes `Ref.pass2` puts for `s` at `c`.
 
-The two side conditions of the C05 theorems are stated with them:
+The one side condition of the C05 theorems is stated with them:
 * `NoLabelAtTop p`: no label is defined where the reference cursor is 2^32 (or beyond) — there `Ref.pass1`
-  is undefined (no byte can follow), while the implementation gives the label the saturated value 0xFFFFFFFF;
-* `NoAlignAtTop p`: no `.align n` that would have to pad stands where the reference cursor is 2^32 (or
-  beyond) — there the implementation computes the padding from the saturated cursor 0xFFFFFFFF.
+  is undefined (no byte can follow), while the implementation gives the label the saturated value 0xFFFFFFFF.
+(Before fix F26 a second one, `NoAlignAtTop`, was needed: `.align` computed its padding from the saturated
+cursor. It now uses the true cursor and the condition is gone.)
 -/
 namespace Trion.Layout
 namespace Ref
@@ -46,9 +46,5 @@ end Ref
 /-- no label is defined where the reference cursor is 2^32 or beyond -/
 def NoLabelAtTop (p : List Stmt) : Prop :=
   ∀ c n, (some c, Stmt.label n) ∈ Ref.trace none p → c < top
-
-/-- no padding `.align` stands where the reference cursor is 2^32 or beyond -/
-def NoAlignAtTop (p : List Stmt) : Prop :=
-  ∀ c n, (some c, Stmt.align n) ∈ Ref.trace none p → c < top ∨ Ref.size c (.align n) = 0
 
 end Trion.Layout
